@@ -1,5 +1,6 @@
 use crate::common::{Acc, Ctx, Report};
 
+pub mod c04;
 pub mod c05;
 pub mod c06;
 pub mod c07;
@@ -16,6 +17,7 @@ pub type Runner = fn(&Ctx) -> (Acc, Report);
 
 pub fn lookup(id: &str) -> Option<(&'static str, Runner)> {
     Some(match id {
+        "C04" => ("C04", c04::run as Runner),
         "C05" => ("C05", c05::run as Runner),
         "C06" => ("C06", c06::run as Runner),
         "C07" => ("C07", c07::run as Runner),
